@@ -54,7 +54,7 @@ class Ctl:
 
 
 class Stats:
-    FIELDS = ("executions", "transitions", "states", "pruned", "terminals", "max_depth", "det_checks")
+    FIELDS = ("executions", "transitions", "states", "pruned", "terminals", "max_depth", "det_checks", "unhashable")
 
     def __init__(self):
         for f in self.FIELDS:
@@ -81,9 +81,18 @@ def execute(World, scen, prefix, mode, visited, stats, want_digests=False, max_l
                 break
             if mode == "full" or want_digests:
                 if ctl.beyond() or want_digests:
-                    h = digest(canon_state(w.ready(), w.roots()))
+                    try:
+                        h = digest(canon_state(w.ready(), w.roots()))
+                    except Unknown:
+                        # a live object the fingerprint does not know (e.g. code under test that keeps a
+                        # new kind of object in a frame): this state is never merged with another one
+                        # (sound: no pruning here), the execution simply continues
+                        h = None
+                        stats.unhashable += 1
                     if want_digests:
                         digests.append(h)
+                    elif h is None:
+                        pass
                     elif h in visited:
                         pruned = True
                         break
